@@ -20,6 +20,7 @@
 #include <setjmp.h>
 #include <stdint.h>
 #include <time.h>
+#include <fcntl.h>
 
 /* ------------------------------------------------------------------ tape */
 typedef struct { char kind[24]; int n, v; } decision_t;
@@ -37,12 +38,14 @@ static uint64_t rotl(uint64_t x, int k) { return (x << k) | (x >> (64 - k)); }
 static uint64_t xnext(void) { uint64_t r = rotl(xs[1] * 5, 7) * 9, t = xs[1] << 17; xs[2] ^= xs[0]; xs[3] ^= xs[1]; xs[1] ^= xs[2]; xs[0] ^= xs[3]; xs[2] ^= t; xs[3] = rotl(xs[3], 45); return r; }
 static void seed_rng(uint64_t s) { for (int i = 0; i < 4; i++) xs[i] = splitmix(&s); }
 
+static int stream_fd = -1; /* crash forensics: every decision is written here as it is taken */
 static int choose(const char *kind, int n) {
   int v = 0;
   if (n <= 0) { fprintf(stderr, "choose n<=0 %s\n", kind); abort(); }
   if (replay_mode) { if (tape_pos < replay_len) { v = replay_vals[tape_pos] % n; if (v < 0) v = -v; } }
   else if (n > 1) v = (int)(xnext() % (uint64_t)n);
   tape_pos++;
+  if (stream_fd >= 0) { if (write(stream_fd, &v, sizeof v) < 0) stream_fd = -1; }
   if (nrec < MAXDEC) { snprintf(rec[nrec].kind, sizeof rec[nrec].kind, "%s", kind); rec[nrec].n = n; rec[nrec].v = v; nrec++; }
   return v;
 }
@@ -279,12 +282,25 @@ static char jsonbuf[6 << 20];
 
 static void put_part(unsigned char *b, int *p, const char *s, int n) { b[(*p)++] = n >> 8; b[(*p)++] = n & 255; memcpy(b + *p, s, n); *p += n; }
 
+static void run_call(int callno);
+static long session_steps; static long long session_us; static int session_reqlen;
+
+/* One run = one session: 1..3 authentications in the same process image (the module's static
+ * state, if it has any, carries over between them -- as in a long-running PAM application). */
 static void run_once(uint64_t seed) {
   have_viol = 0; nrec = 0; tape_pos = 0; nlog = 0; loghash = 0xcbf29ce484222325ULL; nknown_hit = 0;
   seed_rng(seed);
+  session_steps = 0; session_us = 0; session_reqlen = 0;
+  logf_("run prop=C20 seed=%llu", (unsigned long long)seed);
+  int ncalls = 1 + (choose("session-calls", 4) == 3 ? 1 + choose("session-more", 2) : 0);
+  for (int i = 0; i < ncalls && !have_viol; i++) { run_call(i); session_steps += steps; session_us += now_us; if (req_len > session_reqlen) session_reqlen = req_len; }
+  steps = session_steps; now_us = session_us; req_len = session_reqlen;
+}
+
+static void run_call(int callno) {
   now_us = 0; steps = 0; delivered = 0; req_len = 0; nreads = nwrites = nselects = 0; npw = 0; unwiped = 0; sock_open = sock_closed = 0;
   trigger_time = -1; set_item_called = 0; free(set_item_value); set_item_value = NULL; module_allocs = module_frees = 0;
-  logf_("run prop=C20 seed=%llu", (unsigned long long)seed);
+  logf_("call %d", callno);
 
   /* inputs */
   int ulen = lens[choose("user-len", 8)], plen = lens[choose("pw-len", 8)];
@@ -385,19 +401,105 @@ static void run_once(uint64_t seed) {
   if (now_us > bound) fail("time/unbounded", "simulated time %lld ms exceeds the bound %lld ms implied by timeout=%ds", now_us / 1000, bound / 1000, timeout_s);
 }
 
-/* ------------------------------------------------------------------ minimiser / protocol */
-static int run_tape(uint64_t seed, const int *vals, int n, char *sig_out) {
-  replay_mode = 1; replay_len = n; memcpy(replay_vals, vals, sizeof(int) * n);
-  run_once(seed);
-  replay_mode = 0;
-  if (have_viol && sig_out) strcpy(sig_out, viol_sig);
-  return have_viol;
+/* ------------------------------------------------------------------ isolation / minimiser / protocol
+ *
+ * The module may keep state between authentications (a static buffer, say). To make every run
+ * a pure function of its tape, each run executes in a forked child of this process, which
+ * itself never calls the module: every child starts from the pristine process image, exactly
+ * like the fresh process that later replays the violation. */
+#include <sys/wait.h>
+
+typedef struct {
+  int viol; char sig[128]; char msg[900]; uint64_t loghash; int nlog; int tape_pos;
+  long steps; long long sim_us; int reqlen; int nrec;
+  int fault_free, reset, epipe, early_close, stale, short_io, connect_err, eintr;
+  int nknown; char known_sig[4][128]; char known_msg[4][300];
+  int crashed; char crash_text[600];
+} result_t;
+
+static int rec_vals[MAXDEC];
+
+static void jesc(char **p, const char *s) { for (; *s; s++) { unsigned char c = *s; if (c == '"' || c == '\\') { *(*p)++ = '\\'; *(*p)++ = c; } else if (c < 32 || c > 126) { *p += sprintf(*p, "\\u%04x", c); } else *(*p)++ = c; } }
+
+/* runs one session in a child; vals==NULL: search mode from seed. When detail_out != NULL the
+ * child also writes the JSON fragment ("decisions":[...],"log":[...]) to it. */
+static void eval_in_fork(uint64_t seed, const int *vals, int n, result_t *res, int want_vals, char *detail_out, size_t detail_cap) {
+  int pfd[2]; if (pipe(pfd)) { perror("pipe"); exit(2); }
+  fflush(NULL);
+  pid_t pid = fork();
+  if (pid < 0) { perror("fork"); exit(2); }
+  if (pid == 0) {
+    close(pfd[0]);
+    int devnull = open("/dev/null", O_WRONLY); (void)devnull;
+    dup2(pfd[1], 2); /* sanitizer reports go to the pipe after the result record is missing */
+    keep_log = detail_out != NULL;
+    if (vals) { replay_mode = 1; replay_len = n; memcpy(replay_vals, vals, sizeof(int) * n); } else replay_mode = 0;
+    run_once(seed);
+    static result_t r; memset(&r, 0, sizeof r);
+    r.viol = have_viol; snprintf(r.sig, sizeof r.sig, "%s", viol_sig); snprintf(r.msg, sizeof r.msg, "%s", viol_msg);
+    r.loghash = loghash; r.nlog = nlog; r.tape_pos = tape_pos; r.steps = steps; r.sim_us = now_us; r.reqlen = req_len; r.nrec = nrec;
+    r.fault_free = fault_free; r.reset = reset_on_read >= 0; r.epipe = peer_closed_early_at >= 0; r.early_close = close_after >= 0 && close_after < reply_len; r.stale = stale_errno_mode; r.short_io = short_io; r.connect_err = connect_errno != 0; r.eintr = eintr_budget;
+    r.nknown = nknown_hit > 4 ? 4 : nknown_hit; for (int i = 0; i < r.nknown; i++) { strcpy(r.known_sig[i], known_hit_sig[i]); snprintf(r.known_msg[i], 300, "%s", known_hit_msg[i]); }
+    char magic[8] = "RESULT1"; if (write(pfd[1], magic, 8) != 8) _exit(9);
+    if (write(pfd[1], &r, sizeof r) != (ssize_t)sizeof r) _exit(9);
+    if (want_vals) { for (int i = 0; i < nrec; i++) rec_vals[i] = rec[i].v; if (write(pfd[1], rec_vals, sizeof(int) * nrec) < 0) _exit(9); }
+    if (detail_out) {
+      char *buf = malloc(4 << 20), *q = buf;
+      q += sprintf(q, "\"decisions\":["); for (int i = 0; i < nrec; i++) q += sprintf(q, "%s{\"k\":\"%s\",\"n\":%d,\"v\":%d}", i ? "," : "", rec[i].kind, rec[i].n, rec[i].v);
+      q += sprintf(q, "],\"log\":["); for (int i = 0; i < nlog; i++) { if (i) *q++ = ','; *q++ = '"'; jesc(&q, logl[i]); *q++ = '"'; } q += sprintf(q, "]");
+      size_t len = q - buf, off = 0; while (off < len) { ssize_t w = write(pfd[1], buf + off, len - off); if (w <= 0) break; off += w; }
+    }
+    _exit(0);
+  }
+  close(pfd[1]);
+  static char inbuf[5 << 20]; size_t got = 0; ssize_t k;
+  while ((k = read(pfd[0], inbuf + got, sizeof inbuf - 1 - got)) > 0) got += k;
+  close(pfd[0]); inbuf[got] = 0;
+  int st = 0; waitpid(pid, &st, 0);
+  memset(res, 0, sizeof *res);
+  if (got >= 8 + sizeof(result_t) && !memcmp(inbuf, "RESULT1", 8)) {
+    memcpy(res, inbuf + 8, sizeof *res);
+    size_t off = 8 + sizeof(result_t);
+    if (want_vals) { memcpy(rec_vals, inbuf + off, sizeof(int) * res->nrec); off += sizeof(int) * res->nrec; }
+    if (detail_out) { size_t l = got - off; if (l >= detail_cap) l = detail_cap - 1; memcpy(detail_out, inbuf + off, l); detail_out[l] = 0; }
+    return;
+  }
+  /* the child died inside the module: a sanitizer report or a signal */
+  res->crashed = 1; res->viol = 1;
+  const char *kind = strstr(inbuf, "AddressSanitizer") ? "sanitizer/address" : strstr(inbuf, "runtime error:") ? "sanitizer/undefined-behaviour" : "crash/signal";
+  snprintf(res->sig, sizeof res->sig, "%s", kind);
+  char *sum = strstr(inbuf, "SUMMARY:"); if (!sum) sum = strstr(inbuf, "ERROR:"); if (!sum) sum = inbuf;
+  snprintf(res->crash_text, sizeof res->crash_text, "%.500s", sum); for (char *c = res->crash_text; *c; c++) if (*c == '\n') { *c = 0; break; }
+  /* drop addresses so that the text is stable across processes */
+  snprintf(res->msg, sizeof res->msg, "the module died inside pam_sm_authenticate (exit status %d): %s", st, res->crash_text);
+  for (char *c = res->msg; *c; c++) if (c[0] == '0' && c[1] == 'x') { char *e = c + 2; while ((*e >= '0' && *e <= '9') || (*e >= 'a' && *e <= 'f')) e++; memmove(c + 2, e, strlen(e) + 1); }
+  if (detail_out) snprintf(detail_out, detail_cap, "\"decisions\":[],\"log\":[\"(the child process died: %s)\"]", kind);
+  res->loghash = 0xdead;
 }
-static int still_fails(uint64_t seed, const int *v, int n, const char *sig) { char s[128] = ""; return run_tape(seed, v, n, s) && !strcmp(s, sig); }
+
+/* re-runs seed in search mode in a child that streams every decision: the tape up to a crash */
+static int recover_tape(uint64_t seed, int *vals) {
+  int pfd[2]; if (pipe(pfd)) return 0;
+  fflush(NULL);
+  pid_t pid = fork();
+  if (pid == 0) {
+    close(pfd[0]); int dn = open("/dev/null", O_WRONLY); dup2(dn, 2); dup2(dn, 1);
+    stream_fd = pfd[1]; keep_log = 0; replay_mode = 0;
+    run_once(seed);
+    _exit(0);
+  }
+  close(pfd[1]);
+  int n = 0; ssize_t k; int v;
+  while (n < MAXDEC && (k = read(pfd[0], &v, sizeof v)) == (ssize_t)sizeof v) vals[n++] = v;
+  close(pfd[0]); int st; waitpid(pid, &st, 0);
+  return n;
+}
+
+static int still_fails(uint64_t seed, const int *v, int n, const char *sig) { result_t r; eval_in_fork(seed, v, n, &r, 0, NULL, 0); return r.viol && !strcmp(r.sig, sig); }
 
 static int minimise(uint64_t seed, int *cur, int n, const char *sig) {
   static int cand[MAXDEC];
-  int budget = 400;
+  int budget = 300;
   while (n > 0 && budget-- > 0) { int h = n / 2; if (still_fails(seed, cur, h, sig)) n = h; else break; }
   for (int chunk = n / 2; chunk >= 1 && budget > 0; chunk /= 2)
     for (int s = 0; s < n && budget > 0; s += chunk) {
@@ -412,33 +514,38 @@ static int minimise(uint64_t seed, int *cur, int n, const char *sig) {
   return n;
 }
 
-static void jesc(char **p, const char *s) { for (; *s; s++) { unsigned char c = *s; if (c == '"' || c == '\\') { *(*p)++ = '\\'; *(*p)++ = c; } else if (c < 32) { *p += sprintf(*p, "\\u%04x", c); } else *(*p)++ = c; } }
-
 static uint64_t hash_seed(uint64_t base, int idx) { uint64_t x = base * 0x9e3779b97f4a7c15ULL + (uint64_t)idx * 0xbf58476d1ce4e5b9ULL + 0xC20; splitmix(&x); return splitmix(&x); }
 
 static int hexval(int c) { return c <= '9' ? c - '0' : (c | 32) - 'a' + 10; }
 static int unhex(const char *s, unsigned char *out) { int n = 0; while (s[0] && s[1] && s[0] != ' ' && s[0] != '\n') { out[n++] = hexval(s[0]) << 4 | hexval(s[1]); s += 2; } return n; }
 
 static int batch(void) {
-  /* deterministic, fault-free syscall layer; one line per case */
+  /* deterministic, fault-free syscall layer; one line per case, each case in its own child */
   static char line[200000]; static unsigned char raw[70100]; static char a[9000], b[9000];
   while (fgets(line, sizeof line, stdin)) {
-    have_viol = 0; nrec = 0; tape_pos = 0; nlog = 0; replay_mode = 1; replay_len = 0; keep_log = 0;
-    now_us = 0; steps = 0; delivered = 0; req_len = 0; nreads = nwrites = nselects = 0; npw = 0; unwiped = 0; sock_open = sock_closed = 0; trigger_time = -1;
-    socket_errno = connect_errno = 0; reply_trigger = 0; close_after = -1; reset_on_read = -1; peer_stops_reading_at = peer_closed_early_at = -1; eintr_budget = 0; short_io = 0; stale_errno_mode = 0;
-    get_user_ret = get_item_ret = set_item_ret = PAM_SUCCESS; conv_mode = 0; stack_authtok = NULL; timeout_s = 3;
-    pam_user = "user"; cur_password = "PWpassword";
-    if (line[0] == 'R') { reply_len = unhex(line + 2, raw); memcpy(reply, raw, reply_len); }
-    else if (line[0] == 'E') {
-      char *sp = strchr(line + 2, ' '); if (!sp) continue;
-      int n1 = unhex(line + 2, (unsigned char *)a); a[n1] = 0; int n2 = unhex(sp + 1, (unsigned char *)b); b[n2] = 0;
-      pam_user = a; cur_password = b; reply_len = 4; memcpy(reply, "\0\2OK", 4);
-    } else continue;
-    nfrags = 1; frags[0].upto = reply_len; frags[0].at_us = 0; close_after = reply_len;
-    struct pam_handle h; int ret = -1; in_module = 1;
-    if (!setjmp(bail)) ret = pam_sm_authenticate(&h, 0, 0, NULL);
-    in_module = 0;
-    printf("%d ", ret); for (int i = 0; i < req_len; i++) printf("%02x", reqbuf[i]); printf("\n");
+    fflush(NULL);
+    pid_t pid = fork();
+    if (pid == 0) {
+      have_viol = 0; nrec = 0; tape_pos = 0; nlog = 0; replay_mode = 1; replay_len = 0; keep_log = 0;
+      now_us = 0; steps = 0; delivered = 0; req_len = 0; nreads = nwrites = nselects = 0; npw = 0; unwiped = 0; sock_open = sock_closed = 0; trigger_time = -1;
+      socket_errno = connect_errno = 0; reply_trigger = 0; close_after = -1; reset_on_read = -1; peer_stops_reading_at = peer_closed_early_at = -1; eintr_budget = 0; short_io = 0; stale_errno_mode = 0;
+      get_user_ret = get_item_ret = set_item_ret = PAM_SUCCESS; conv_mode = 0; stack_authtok = NULL; timeout_s = 3;
+      pam_user = "user"; cur_password = "PWpassword";
+      if (line[0] == 'R') { reply_len = unhex(line + 2, raw); memcpy(reply, raw, reply_len); }
+      else if (line[0] == 'E') {
+        char *sp = strchr(line + 2, ' '); if (!sp) _exit(0);
+        int n1 = unhex(line + 2, (unsigned char *)a); a[n1] = 0; int n2 = unhex(sp + 1, (unsigned char *)b); b[n2] = 0;
+        pam_user = a; cur_password = b; reply_len = 4; memcpy(reply, "\0\2OK", 4);
+      } else _exit(0);
+      nfrags = 1; frags[0].upto = reply_len; frags[0].at_us = 0; close_after = reply_len;
+      struct pam_handle h; int ret = -1; in_module = 1;
+      if (!setjmp(bail)) ret = pam_sm_authenticate(&h, 0, 0, NULL);
+      in_module = 0;
+      printf("%d ", ret); for (int i = 0; i < req_len; i++) printf("%02x", reqbuf[i]); printf("\n");
+      fflush(NULL); _exit(0);
+    }
+    int st; waitpid(pid, &st, 0);
+    if (!WIFEXITED(st) || WEXITSTATUS(st) != 0) printf("-99 crashed\n");
   }
   return 0;
 }
@@ -449,14 +556,15 @@ int main(void) {
   const char *outp = getenv("VERIF_OUT"); FILE *out = outp ? fopen(outp, "a") : stdout; if (!out) return 2;
   known_csv = getenv("VERIF_KNOWN");
   const char *tier = getenv("VERIF_TIER"); if (!tier || !*tier) tier = "quick";
+  static char detail[4 << 20];
   if (getenv("VERIF_REPLAY_TAPE")) {
     uint64_t seed = strtoull(getenv("VERIF_REPLAY_SEED"), NULL, 10);
     static int vals[MAXDEC]; int n = 0; const char *p = getenv("VERIF_REPLAY_TAPE");
     while (*p && n < MAXDEC) { vals[n++] = atoi(p); while (*p && *p != ',') p++; if (*p) p++; }
-    keep_log = 1; run_tape(seed, vals, n, NULL);
-    char *q = jsonbuf; q += sprintf(q, "{\"type\":\"replay\",\"prop\":\"C20\",\"seed\":%llu,\"log_hash\":\"%016llx\",\"sig\":\"", (unsigned long long)seed, (unsigned long long)loghash);
-    if (have_viol) jesc(&q, viol_sig); q += sprintf(q, "\",\"msg\":\""); if (have_viol) jesc(&q, viol_msg);
-    q += sprintf(q, "\",\"log\":["); for (int i = 0; i < nlog; i++) { if (i) *q++ = ','; *q++ = '"'; jesc(&q, logl[i]); *q++ = '"'; } q += sprintf(q, "]}\n");
+    result_t r; eval_in_fork(seed, vals, n, &r, 0, detail, sizeof detail);
+    char *q = jsonbuf; q += sprintf(q, "{\"type\":\"replay\",\"prop\":\"C20\",\"seed\":%llu,\"log_hash\":\"%016llx\",\"sig\":\"", (unsigned long long)seed, (unsigned long long)r.loghash);
+    if (r.viol) jesc(&q, r.sig); q += sprintf(q, "\",\"msg\":\""); if (r.viol) jesc(&q, r.msg);
+    q += sprintf(q, "\",%s}\n", detail);
     fwrite(jsonbuf, 1, q - jsonbuf, out); fclose(out); return 0;
   }
   uint64_t base = getenv("VERIF_BASE") ? strtoull(getenv("VERIF_BASE"), NULL, 10) : 1;
@@ -465,7 +573,7 @@ int main(void) {
   const char *curp = getenv("VERIF_CUR");
   struct timespec t0; clock_gettime(CLOCK_MONOTONIC, &t0);
   long runs = 0, tsteps = 0, violating = 0; long long tsim = 0;
-  long c_success = 0, c_autherr = 0, c_unavail = 0, c_other = 0, c_timeouts = 0, c_eintr = 0, c_faultfree = 0, c_reset = 0, c_epipe = 0, c_early_close = 0, c_stale = 0, c_short = 0, c_connect = 0, c_cut = 0;
+  long c_faultfree = 0, c_eintr = 0, c_reset = 0, c_epipe = 0, c_early_close = 0, c_stale = 0, c_short = 0, c_connect = 0, c_multi = 0;
   static uint64_t distinct[100000]; int ndistinct = 0;
   char reported[16][128]; int nreported = 0;
   char sample[2][700]; int nsample = 0;
@@ -475,39 +583,38 @@ int main(void) {
     if ((t1.tv_sec - t0.tv_sec) * 1000 + (t1.tv_nsec - t0.tv_nsec) / 1000000 > budget_ms) break;
     uint64_t seed = hash_seed(base, idx);
     if (curp) { FILE *c = fopen(curp, "w"); if (c) { fprintf(c, "%d %llu\n", idx, (unsigned long long)seed); fclose(c); } }
-    keep_log = nsample < 2; replay_mode = 0;
-    run_once(seed);
-    if (getenv("VERIF_HASHLOG")) { FILE *h = fopen(getenv("VERIF_HASHLOG"), "a"); if (h) { fprintf(h, "%d %llu %016llx %d %d %s\n", idx, (unsigned long long)seed, (unsigned long long)loghash, nlog, tape_pos, have_viol ? viol_sig : ""); fclose(h); } }
-    runs++; tsteps += steps; tsim += now_us;
-    if (fault_free) c_faultfree++;
-    if (eintr_budget == 0 && !fault_free) c_eintr++;
-    if (reset_on_read >= 0) c_reset++; if (peer_closed_early_at >= 0) c_epipe++; if (close_after >= 0 && close_after < reply_len) c_early_close++; if (stale_errno_mode) c_stale++; if (short_io) c_short++; if (connect_errno) c_connect++;
-    if (nsample < 2 && nlog > 1) { snprintf(sample[nsample], 700, "%s", logl[1]); nsample++; }
-    for (int i = 0; i < nknown_hit; i++) { int seen = 0; for (int k = 0; k < nknown_all; k++) if (!strcmp(known_all_sig[k], known_hit_sig[i])) seen = 1; if (!seen && nknown_all < 8) { strcpy(known_all_sig[nknown_all], known_hit_sig[i]); snprintf(known_all_msg[nknown_all], 300, "seed=%llu: %s", (unsigned long long)seed, known_hit_msg[i]); nknown_all++; } }
-    /* distinct non-trivial: runs in which the module got as far as exchanging bytes with the agent, keyed by the agent/syscall configuration */
-    if (req_len > 0 && ndistinct < 100000) { uint64_t k = 0xcbf29ce484222325ULL; for (int i = 0; i < nrec; i++) { k ^= (uint64_t)rec[i].v + 1; k *= 0x100000001b3ULL; } distinct[ndistinct++] = k; }
-    if (have_viol) {
+    result_t r; int want_detail = nsample < 2;
+    eval_in_fork(seed, NULL, 0, &r, 1, want_detail ? detail : NULL, sizeof detail);
+    if (getenv("VERIF_HASHLOG")) { FILE *h = fopen(getenv("VERIF_HASHLOG"), "a"); if (h) { fprintf(h, "%d %llu %016llx %d %d %s\n", idx, (unsigned long long)seed, (unsigned long long)r.loghash, r.nlog, r.tape_pos, r.viol ? r.sig : ""); fclose(h); } }
+    runs++; tsteps += r.steps; tsim += r.sim_us;
+    c_faultfree += r.fault_free; c_eintr += r.eintr > 0; c_reset += r.reset; c_epipe += r.epipe; c_early_close += r.early_close; c_stale += r.stale; c_short += r.short_io; c_connect += r.connect_err;
+    if (want_detail && !r.crashed) { char *l = strstr(detail, "\"log\":["); if (l) { char *u = strstr(l, "user="); if (u) { snprintf(sample[nsample], 600, "%.590s", u); for (char *c = sample[nsample]; *c; c++) if (*c == '"') { *c = 0; break; } nsample++; } } }
+    for (int i = 0; i < r.nknown; i++) { int seen = 0; for (int k = 0; k < nknown_all; k++) if (!strcmp(known_all_sig[k], r.known_sig[i])) seen = 1; if (!seen && nknown_all < 8) { strcpy(known_all_sig[nknown_all], r.known_sig[i]); snprintf(known_all_msg[nknown_all], 300, "seed=%llu: %.250s", (unsigned long long)seed, r.known_msg[i]); nknown_all++; } }
+    if (r.reqlen > 0 && ndistinct < 100000 && !r.crashed) { uint64_t k = 0xcbf29ce484222325ULL; for (int i = 0; i < r.nrec; i++) { k ^= (uint64_t)rec_vals[i] + 1; k *= 0x100000001b3ULL; } distinct[ndistinct++] = k; }
+    if (r.viol) {
       violating++;
-      int seen = 0; for (int i = 0; i < nreported; i++) if (!strcmp(reported[i], viol_sig)) seen = 1;
+      int seen = 0; for (int i = 0; i < nreported; i++) if (!strcmp(reported[i], r.sig)) seen = 1;
       if (seen || nreported >= 16) continue;
-      strcpy(reported[nreported++], viol_sig);
-      char sig[128]; strcpy(sig, viol_sig);
-      static int vals[MAXDEC]; int n = nrec, orig = nrec; for (int i = 0; i < n; i++) vals[i] = rec[i].v;
-      keep_log = 0; n = minimise(seed, vals, n, sig);
-      keep_log = 1; run_tape(seed, vals, n, NULL);
-      char *q = jsonbuf; q += sprintf(q, "{\"type\":\"violation\",\"prop\":\"C20\",\"tier\":\"%s\",\"sig\":\"", tier); jesc(&q, have_viol ? viol_sig : sig);
-      q += sprintf(q, "\",\"msg\":\""); jesc(&q, viol_msg); q += sprintf(q, "\",\"seed\":%llu,\"idx\":%d,\"orig_tape_len\":%d,\"log_hash\":\"%016llx\",\"tape\":[", (unsigned long long)seed, idx, orig, (unsigned long long)loghash);
+      strcpy(reported[nreported++], r.sig);
+      char sig[128]; strcpy(sig, r.sig);
+      static int vals[MAXDEC]; int n, orig;
+      if (r.crashed) { n = orig = recover_tape(seed, vals); }   /* the child died before it could report its tape */
+      else { n = orig = r.nrec; memcpy(vals, rec_vals, sizeof(int) * n); }
+      n = minimise(seed, vals, n, sig);
+      result_t fr;
+      eval_in_fork(seed, vals, n, &fr, 0, detail, sizeof detail);
+      char *q = jsonbuf; q += sprintf(q, "{\"type\":\"violation\",\"prop\":\"C20\",\"tier\":\"%s\",\"sig\":\"", tier); jesc(&q, fr.viol ? fr.sig : sig);
+      q += sprintf(q, "\",\"msg\":\""); jesc(&q, fr.msg); q += sprintf(q, "\",\"seed\":%llu,\"idx\":%d,\"orig_tape_len\":%d,\"log_hash\":\"%016llx\",\"tape\":[", (unsigned long long)seed, idx, orig, (unsigned long long)fr.loghash);
       for (int i = 0; i < n; i++) q += sprintf(q, "%s%d", i ? "," : "", vals[i]);
-      q += sprintf(q, "],\"decisions\":["); for (int i = 0; i < nrec; i++) q += sprintf(q, "%s{\"k\":\"%s\",\"n\":%d,\"v\":%d}", i ? "," : "", rec[i].kind, rec[i].n, rec[i].v);
-      q += sprintf(q, "],\"log\":["); for (int i = 0; i < nlog; i++) { if (i) *q++ = ','; *q++ = '"'; jesc(&q, logl[i]); *q++ = '"'; } q += sprintf(q, "]}\n");
+      q += sprintf(q, "],%s}\n", detail);
       fwrite(jsonbuf, 1, q - jsonbuf, out); fflush(out);
     }
   }
-  (void)c_success; (void)c_autherr; (void)c_unavail; (void)c_other; (void)c_timeouts; (void)c_cut;
+  (void)c_multi;
   struct timespec t2; clock_gettime(CLOCK_MONOTONIC, &t2);
   char *q = jsonbuf;
-  q += sprintf(q, "{\"type\":\"stats\",\"prop\":\"C20\",\"tier\":\"%s\",\"runs\":%ld,\"steps\":%ld,\"sim_time_ns\":%lld,\"wall_ms\":%ld,\"stats\":{\"violating-runs\":%ld,\"fault-free-runs\":%ld,\"fault:eintr-enabled\":%ld,\"fault:connection-reset\":%ld,\"fault:epipe\":%ld,\"fault:early-close\":%ld,\"fault:stale-errno\":%ld,\"fault:short-io\":%ld,\"fault:connect-refused\":%ld},",
-               tier, runs, tsteps, tsim * 1000, (long)((t2.tv_sec - t0.tv_sec) * 1000 + (t2.tv_nsec - t0.tv_nsec) / 1000000), violating, c_faultfree, runs - c_faultfree - c_eintr, c_reset, c_epipe, c_early_close, c_stale, c_short, c_connect);
+  q += sprintf(q, "{\"type\":\"stats\",\"prop\":\"C20\",\"tier\":\"%s\",\"runs\":%ld,\"steps\":%ld,\"sim_time_ns\":%lld,\"wall_ms\":%ld,\"stats\":{\"violating-runs\":%ld,\"fault-free-runs\":%ld,\"fault:eintr\":%ld,\"fault:connection-reset\":%ld,\"fault:epipe\":%ld,\"fault:early-close\":%ld,\"fault:stale-errno\":%ld,\"fault:short-io\":%ld,\"fault:connect-refused\":%ld},",
+               tier, runs, tsteps, tsim * 1000, (long)((t2.tv_sec - t0.tv_sec) * 1000 + (t2.tv_nsec - t0.tv_nsec) / 1000000), violating, c_faultfree, c_eintr, c_reset, c_epipe, c_early_close, c_stale, c_short, c_connect);
   q += sprintf(q, "\"known\":{"); for (int i = 0; i < nknown_all; i++) { if (i) *q++ = ','; *q++ = '"'; jesc(&q, known_all_sig[i]); q += sprintf(q, "\":\""); jesc(&q, known_all_msg[i]); *q++ = '"'; } q += sprintf(q, "},");
   q += sprintf(q, "\"samples\":["); for (int i = 0; i < nsample; i++) { if (i) *q++ = ','; *q++ = '"'; jesc(&q, sample[i]); *q++ = '"'; }
   q += sprintf(q, "],\"distinct\":["); for (int i = 0; i < ndistinct; i++) q += sprintf(q, "%s%llu", i ? "," : "", (unsigned long long)(distinct[i] >> 1));
